@@ -146,7 +146,51 @@ def kernel_parse_integral_long():
     return decide_kernel('parse_integral', 'LONG')
 
 
-ALL = ['kernel_conv_integer', 'kernel_conv_long', 'kernel_cint',
+def kernel_single_can_hold():
+    """SINGLE cells: accepted iff the value rounds to a finite binary32."""
+    import struct
+    from vlib import kernelsmt as K
+    # the struct.pack model on the exact boundary (native, every run)
+    edge = float(2 ** 128 - 2 ** 103)
+    for x, ok in [(edge, False), (math.nextafter(edge, 0), True),
+                  (-edge, False), (math.nextafter(-edge, 0), True),
+                  (3.4028234663852886e38, True), (1e39, False), (0.0, True)]:
+        try:
+            struct.pack('>f', x)
+            real = True
+        except OverflowError:
+            real = False
+        import z3
+        enc = z3.is_true(z3.simplify(K.pack_f_succeeds(z3.FPVal(x, K.F64))))
+        if real != ok or enc != ok:
+            raise RuntimeError('struct.pack model mismatch at %r' % x)
+    d = K.decide_single()
+    print('KERNEL-SMT ' + json.dumps({'kernel': 'can_hold', 'type': 'SINGLE',
+                                      'results': [d]}))
+    if d['result'] == 'unsat':
+        return 1
+    if d['result'] != 'sat':
+        raise RuntimeError('solver answered %s for can_hold/SINGLE' %
+                           d['result'])
+    from qvm.cell import CellValue, CellType
+    from qvm.trap import Trapped
+    x = d['model']
+    fits = abs(Fraction(x)) < Fraction(2 ** 128 - 2 ** 103)
+    try:
+        c = CellValue(CellType.SINGLE, x)
+        got = ('value', c.value)
+    except Trapped:
+        got = ('rejected',)
+    except Exception as e:  # noqa
+        got = ('host exception', '%s: %s' % (type(e).__name__, e))
+    if (got[0] == 'value') != fits or got[0] == 'host exception':
+        print('KERNEL-CEX kernel=can_hold type=SINGLE v=%r fits=%r real=%r'
+              % (x, fits, got))
+        return 0
+    raise RuntimeError('counterexample %r did not replay' % x)
+
+
+ALL = ['kernel_single_can_hold', 'kernel_conv_integer', 'kernel_conv_long', 'kernel_cint',
        'kernel_clng', 'kernel_parse_integral_integer',
        'kernel_parse_integral_long']
 
@@ -186,6 +230,9 @@ DESC = {
     'kernel_translator_validation':
         'translator validation: encoding == CPython on a boundary table, '
         'for every extracted kernel',
+    'kernel_single_can_hold':
+        'CellValue(SINGLE, v) / Type.can_hold: accepted <=> v rounds to a '
+        'finite binary32 (coerce cannot raise, nothing that fits is rejected)',
     'kernel_conv_integer': 'conv_<float>_integer',
     'kernel_conv_long': 'conv_<float>_long',
     'kernel_cint': 'CINT (QvmCpu._exec_cint)',
